@@ -115,6 +115,15 @@ func shapeKey(c Config) string {
 	if c.PureRecv {
 		k += " builder-received-handler"
 	}
+	if c.Bad > 0 && c.Early == "" && c.StopFrom == "" {
+		k += " failing-requests"
+		if c.Bad > c.W {
+			k += ">w"
+		}
+	}
+	if c.ConnLoss != "" {
+		k += " server-conn-lost=" + c.ConnLoss
+	}
 	return k
 }
 
@@ -184,6 +193,7 @@ func fill(rng *rand.Rand, c Config) Config {
 	c.Busy = 1 + rng.Intn(c.NSubj) // traffic on the first Busy subjects, the others stay idle
 	c.HWM = []string{"", "", "1ms", "10ms", "50ms"}[rng.Intn(5)]
 	c.PureRecv = rng.Intn(4) == 0
+	c.Bad = []int{0, 0, 0, c.W, c.W + 1, 2 * c.W}[rng.Intn(6)] // failing requests interleaved (>= worker count)
 	c.Oneway = rng.Intn(3) == 0
 	c.Arrival = []string{"burst", "burst", "chunks", "trickle"}[rng.Intn(4)]
 	if c.B > 200 && c.Arrival == "trickle" {
@@ -303,7 +313,26 @@ func buildSweep(run *ev.Run) []Config {
 		for i := 0; i < 8; i++ {
 			add(watermarkConfig(rng, []int{1, 2}[i%2], []int{2, 8, 8, 64}[i%4], []string{"1ms", "10ms", "50ms", "1ms"}[i%4], []string{"5ms", "5ms", "20ms", "1ms"}[i%4], i >= 6, 0))
 		}
+		// 16 configs: every w x q once with >= w failing requests in the stream
+		n = 0
+		for _, w := range sweepW {
+			for _, q := range sweepQ {
+				bc := []string{"q+w+1", "q", "2(q+w)", "q+w"}[n%4]
+				d := []string{"gate", "1ms", "5ms", "0"}[n%4]
+				add(badReqConfig(rng, w, q, bc, d, []int{w, w + 1, 2 * w}[n%3], 0))
+				n++
+			}
+		}
+		// 16 configs: every w x q once with the server's connection lost right before Stop
+		n = 0
+		for _, w := range sweepW {
+			for _, q := range sweepQ {
+				add(connLossConfig(rng, w, q, []string{"cut", "broker"}[n%2], []string{"5ms", "gate", "20ms", "1ms"}[(n/2)%4], 0))
+				n++
+			}
+		}
 		out = append(out, soleWorkerProbe(rng, len(out))...)
+		out = append(out, connLossFullProbe(rng, len(out))...)
 		return out
 	}
 	// thorough: full grid x handler mode x sharing x (all positions for tiny
@@ -413,7 +442,28 @@ func buildSweep(run *ev.Run) []Config {
 			}
 		}
 	}
+	// >= w failing requests in the stream
+	for _, w := range sweepW {
+		for _, q := range sweepQ {
+			for _, bc := range []string{"q", "q+w", "q+w+1", "2(q+w)"} {
+				for _, d := range []string{"0", "1ms", "5ms", "gate"} {
+					add(badReqConfig(rng, w, q, bc, d, []int{w, w + 1, 2 * w}[rng.Intn(3)], 0))
+				}
+			}
+		}
+	}
+	// the server's connection lost right before Stop
+	for _, w := range sweepW {
+		for _, q := range sweepQ {
+			for _, how := range []string{"cut", "broker"} {
+				for _, d := range []string{"1ms", "5ms", "20ms", "gate"} {
+					add(connLossConfig(rng, w, q, how, d, 0))
+				}
+			}
+		}
+	}
 	out = append(out, soleWorkerProbe(rng, len(out))...)
+	out = append(out, connLossFullProbe(rng, len(out))...)
 	return out
 }
 
@@ -441,6 +491,53 @@ func watermarkConfig(rng *rand.Rand, w, q int, hwm, dur string, pure bool, rep i
 	c.K = c.B
 	c.HWM, c.PureRecv = hwm, pure
 	return c
+}
+
+// badReqConfig: at least as many failing requests as workers, interleaved
+// into the first half of the stream, well-formed requests behind them, then
+// Stop - with the queue full (gate, burst q+w+1 and more) or not.
+func badReqConfig(rng *rand.Rand, w, q int, bclass, dur string, bad int, rep int) Config {
+	c := fill(rng, Config{W: w, Q: q, BClass: bclass, Dur: dur, Share: rng.Intn(2) == 0, Rep: rep})
+	c.K = c.B
+	c.Bad = bad
+	c.DrainTO = ""
+	return c
+}
+
+// connLossConfig: the server's connection (NoReconnect) is lost right before
+// Stop while k <= q+w requests are in the work queue / with the workers.
+func connLossConfig(rng *rand.Rand, w, q int, how, dur string, rep int) Config {
+	c := fill(rng, Config{W: w, Q: q, BClass: "q+w", Dur: dur, Share: rng.Intn(2) == 0, Rep: rep})
+	c.K = []int{c.B, c.B, imin(c.B, q), 1 + rng.Intn(c.B)}[rng.Intn(4)]
+	c.B = c.K // nothing is published while or after Stop: the publisher may be gone with the broker
+	c.Rest = "after"
+	c.ConnLoss = how
+	c.PureRecv = false // "handed to the work queue" is observed through the received handler
+	c.Bad, c.DrainTO, c.StopUs = 0, "", 0
+	if dur == "gate" {
+		c.GateUs = []int{1000, 5000}[rng.Intn(2)]
+	}
+	return c
+}
+
+// connLossFullProbe (only with VERIF_C20_CONNLOSS_FULL=1, never part of the
+// default sweep): the connection is lost while a NATS callback is parked on
+// the full work queue.
+func connLossFullProbe(rng *rand.Rand, idx int) []Config {
+	if os.Getenv("VERIF_C20_CONNLOSS_FULL") == "" {
+		return nil
+	}
+	var out []Config
+	for i, how := range []string{"cut", "broker", "cut"} {
+		c := connLossConfig(rng, 1+i, 1+i, how, "gate", 0)
+		c.BClass, c.B = "q+w+2", c.W+c.Q+2
+		c.K = c.B
+		c.GateUs = 5000
+		c.ConnLossFull = true
+		c.Idx = idx + i
+		out = append(out, c)
+	}
+	return out
 }
 
 // soleWorkerProbe (only with VERIF_C20_SOLE_WORKER=1, never part of the
@@ -641,7 +738,7 @@ var panicNorm = regexp.MustCompile(`0x[0-9a-fA-F]+|\d+`)
 
 func runC20(tier string, args []string) int {
 	run := ev.New("C20", tier, "exploration")
-	run.Rule("configuration sweep workers {1,2,4,8} x queue {1,2,8,64} x burst {1,q,q+w,q+w+1,2(q+w),10(q+w)} x handler {0,1ms,5ms,PRNG 0-3ms,gate released after Stop is called} x position of Stop (incl. position 0 issued right after `go Serve()` without waiting for the subscription, with no / Gosched / 1-200us yields so that Stop is called both before and after Serve is parked; otherwise k of b double-flushed into the server's NATS client first; the rest published concurrently with Stop and/or after it returned; one extra request after Stop returned in every scenario) x caller of Stop (harness goroutine, or a worker goroutine: the processor / started / finished event handler of a shutdown request placed inside the double-flushed stream, wherever the drain can finish without that worker) x subjects 1-4 with traffic on a subset (idle subscriptions next to busy ones, incl. full queue with exactly as many requests parked in the NATS client as there are idle subjects) x WithHighWatermark {default, 1ms, 10ms, 50ms} incl. queue waits beyond it, the library's default request-received handler always in effect (wrapped by the counter, or left to the builder) x server connection option DrainTimeout {default, bare Options literal = 0, 1ms, 50ms} incl. backlogs that outlast it x server connection shared with an unrelated subscription or not x 1-2 subjects x arrival pattern; every scenario runs a real FNatsServer against an embedded nats-server in a child process; distinct = (w, q, burst class, handler mode, stop-position class, rest mode, sharing, subjects)")
+	run.Rule("configuration sweep workers {1,2,4,8} x queue {1,2,8,64} x burst {1,q,q+w,q+w+1,2(q+w),10(q+w)} x handler {0,1ms,5ms,PRNG 0-3ms,gate released after Stop is called} x position of Stop (incl. position 0 issued right after `go Serve()` without waiting for the subscription, with no / Gosched / 1-200us yields so that Stop is called both before and after Serve is parked; otherwise k of b double-flushed into the server's NATS client first; the rest published concurrently with Stop and/or after it returned; one extra request after Stop returned in every scenario) x caller of Stop (harness goroutine, or a worker goroutine: the processor / started / finished event handler of a shutdown request placed inside the double-flushed stream, wherever the drain can finish without that worker) x subjects 1-4 with traffic on a subset (idle subscriptions next to busy ones, incl. full queue with exactly as many requests parked in the NATS client as there are idle subjects) x WithHighWatermark {default, 1ms, 10ms, 50ms} incl. queue waits beyond it, the library's default request-received handler always in effect (wrapped by the counter, or left to the builder) x failing requests (>= worker count: message shorter than the frame size, bad header version, truncated header, processor error) interleaved in front of well-formed ones x fault 'server connection lost right before Stop' (NoReconnect; TCP cut through a relay / private broker shut down; k <= q+w requests in the work queue; replies not judged, processing before Serve returns is) x server connection option DrainTimeout {default, bare Options literal = 0, 1ms, 50ms} incl. backlogs that outlast it x server connection shared with an unrelated subscription or not x 1-2 subjects x arrival pattern; every scenario runs a real FNatsServer against an embedded nats-server in a child process; distinct = (w, q, burst class, handler mode, stop-position class, rest mode, sharing, subjects)")
 	run.Assume("embedded nats-server v2 routes a PUB to the subscribers' outbound queues before it answers the publisher's PING, and a connection's PONG follows the MSGs queued before it (the double flush defines 'received before Stop', as the pinned TestShutdown does on one connection)")
 	run.Assume("nats.go SubscribeSync/Pending/NextMsg on the collector connection and Flush are correct (reply collector)")
 	run.Assume("the recording processor is the only FProcessor; handler durations are finite (the gate is opened after Stop is called, never after it returns)")
@@ -876,6 +973,19 @@ func runC20(tier string, args []string) int {
 		}
 		if r.Config.PureRecv {
 			run.Add("scenarios_builder_default_received_handler", 1)
+		}
+		if r.BadPublished > 0 {
+			run.Add("scenarios_with_failing_requests_in_the_stream", 1)
+			run.Add("failing_requests_published", r.BadPublished)
+			if r.BadPublished >= r.Config.W {
+				run.Add("scenarios_failing_requests_ge_workers", 1)
+			}
+		}
+		if r.Config.ConnLoss != "" {
+			run.Add("scenarios_server_conn_lost_before_stop_"+r.Config.ConnLoss, 1)
+			if r.AtStop.Finished < r.AtStop.Received {
+				run.Add("scenarios_server_conn_lost_with_backlog", 1)
+			}
 		}
 		if r.Config.DrainTO != "" {
 			run.Add("scenarios_server_conn_drain_timeout_"+r.Config.DrainTO, 1)
